@@ -1667,6 +1667,40 @@ def method_family(P, root, exclude=()):
     return fam
 
 
+def exclusive_family(P, root, exclude=()):
+    """`root`, its closures, and the private in-crate functions (with their closures) that are called from this family only —
+    the pieces a function is split into by extracting helpers.  Public functions and functions with an outside caller are not part."""
+    if not hasattr(P, '_callers'):
+        callers = {}
+        for g in P.fns.values():
+            if g.raw.get('derived'):
+                continue
+            base = re.sub(r'(::\{closure#\d+\})+$', '', g.id)
+            for tgt, kind in P.callgraph().get(g.id, ()):
+                if kind in ('call', 'fnref'):
+                    callers.setdefault(tgt, set()).add(base)
+        P._callers = callers
+    fam = [root]
+    changed = True
+    while changed:
+        changed = False
+        ids = {re.sub(r'(::\{closure#\d+\})+$', '', x.id) for x in fam}
+        for g in list(fam):
+            for h in [g] + P.closures_of(g):
+                for tgt, kind in P.callgraph().get(h.id, ()):
+                    k = P.fns.get(tgt)
+                    if k is None or k in fam or k.kind == 'Closure' or k.public or k.raw.get('derived') or any(k.id.endswith(x) for x in exclude):
+                        continue
+                    if kind in ('call', 'fnref') and P._callers.get(k.id, set()) <= ids:
+                        fam.append(k)
+                        changed = True
+    out = []
+    for g in fam:
+        out.append(g)
+        out.extend(P.closures_of(g))
+    return out
+
+
 def is_membership(P, e, depth=0):
     """`e` tests whether a key is present in the registry's map: contains_key on it, or a call of an in-crate wrapper whose
     only exit is such a test on its receiver's own map (`fn contains(&self, p) -> bool { self.types.contains_key(p) }`)"""
